@@ -20,6 +20,15 @@ DRV_ENV = {"ASAN_OPTIONS": vlib.ASAN_ENV + ":symbolize=0"}
 STRPROPS = ("title", "alias", "value", "font", "axes", "worlds")
 
 
+def enabled():
+    """The part needs its fix commits (docs/X20_tree.md) in the tree under test: it is switched on by the marker file
+    checks/x20_tree.accepted (created when those commits are integrated) or by VERIF_X20=1, off by VERIF_X20=0."""
+    env = os.environ.get("VERIF_X20")
+    if env is not None:
+        return env not in ("0", "")
+    return os.path.exists(os.path.join(vlib.ROOT, "checks", "x20_tree.accepted"))
+
+
 def build():
     return vlib.build_driver("layouttree", ["layouttree.cpp"], libs=LIBS, cxx=True)
 
@@ -207,12 +216,13 @@ def dbl(v2):
     return [v2 // 65536, v2 % 65536]
 
 
-def rand_value(rng, name):
+def rand_value(rng, name, pool=()):
     blank = {"n": [], "c": [], "sty": ""}
     h = HINT.get(name.lower())
     if h == "bind":
         k = rng.randrange(1, 4)
-        return dict(blank, f="txt", c=codes(rng.choice([" ", "  ", "\t"]).join(rng.choice(["a", "b", "w", "a1", "ax", "wld"]) for _ in range(k))))
+        pool = list(pool) * 3 + ["a", "b", "w", "zz"]
+        return dict(blank, f="txt", c=codes(rng.choice([" ", "  ", "\t"]).join(rng.choice(pool) for _ in range(k))))
     if h == "str" or rng.random() < 0.1:
         r = rng.random()
         if r < 0.6:
@@ -270,7 +280,8 @@ def gen_docs(ck, n, nitems):
                 if not group and rng.random() < 0.08:
                     items.append({"k": "reset", "name": codes(nm), "v": {"f": "none", "n": [], "c": [], "sty": ""}, "d": rand_deco(rng)})
                 else:
-                    items.append({"k": "opt", "name": codes(nm), "v": rand_value(rng, nm), "d": rand_deco(rng)})
+                    pool = used.get("world" if nm == "worlds" else "axis", [])
+                    items.append({"k": "opt", "name": codes(nm), "v": rand_value(rng, nm, pool), "d": rand_deco(rng)})
             elif group and (r < 0.9 or len(frames) == 1):
                 kw = rng.choice(kwords if cur == "layout" else member_words)
                 nm = rng.choice(inames)
@@ -302,52 +313,99 @@ def render_docs(docs, tag):
     return vlib.parse_behaviours(res.out), res
 
 
-def report(ck, behs, mms, binding, per_sig):
+def report(ck, behs, mms, binding, per_sig, pfx=""):
     for mm in mms:
         beh = behs[mm["b"]]
-        sig = signature(mm, beh)
+        sig = pfx + signature(mm, beh)
         per_sig[sig] = per_sig.get(sig, 0) + 1
         if per_sig[sig] > 3:
             continue
-        ck.violation(sig, {"binding": binding, "x20": True, "behaviour": beh, "step": mm["i"], "why": mm["why"], "record": mm["rec"],
-                           "text": unrle(beh[0]["arg"].get("text"), 80)})
+        ck.violation(sig, {"binding": binding, "x20": True, "corder": bool(pfx), "behaviour": beh, "step": mm["i"], "why": mm["why"],
+                           "record": mm["rec"], "text": unrle(beh[0]["arg"].get("text"), 80)})
+
+
+def nt_recs(rs):
+    """(streamed replay) the loaded layout showed more than one object, a binding or a report"""
+    o = (rs[0].get("obs") or {}) if rs else {}
+    its = list(all_items(o.get("items")))
+    return len(its) > 1 or any(it.get("axes") or it.get("worlds") for it in its) or (o.get("rep") or 0) > 0
+
+
+PFX_C = "corder:"     # second driver: libmptcore first in the link order (C metatype creators hold the parsed values)
 
 
 def run_part(ck, tier):
     cfg = CFG[tier]
-    exe = build()
+    exe, exe_c = build(), build_c()
     docs = gen_docs(ck, cfg["ndocs"], cfg["nitems"])
+    per_sig = {}
+    dump = os.path.join(vlib.ensure(os.path.join(vlib.WORK, "C20")), "x20-gen-%d.out" % os.getpid())
 
     def job_model():
-        return vlib.tlc("MC_LayoutTree", cfg["mc"], workers=max(2, vlib.NCPU // 2), timeout=1200)
+        if os.environ.get("X20_DEV_SKIP_MC"):        # development aid only (code mutations do not touch the model)
+            return None
+        return vlib.tlc("MC_LayoutTree", cfg["mc"], workers=max(2, vlib.NCPU // 2), timeout=1500, xss="512m")
 
     def job_gen():
-        g = vlib.tlc("Gen_LayoutTree", cfg["gen"], workers=4, timeout=1200)
-        if g.error or g.violation:
-            raise vlib.MachineryError("X20 case export failed: %s %s" % (g.error, g.violation))
-        behs = vlib.parse_behaviours(g.out)
-        recs, _ = vlib.run_driver(exe, vlib.to_script(behs), env=DRV_ENV, timeout=1200)
-        return behs, recs, g
+        if tier == "quick":
+            g = vlib.tlc("Gen_LayoutTree", cfg["gen"], workers=4, timeout=1200, xss="512m")     # word splitting recurses per character
+            if g.error or g.violation:
+                raise vlib.MachineryError("X20 case export failed: %s %s" % (g.error, g.violation))
+            behs = vlib.parse_behaviours(g.out)
+            script = vlib.to_script(behs)
+            out = []
+            for drv, pfx in ((exe, ""), (exe_c, PFX_C)):
+                recs, _ = vlib.run_driver(drv, script, env=DRV_ENV, timeout=1200)
+                out.append((pfx, vlib.compare(behs, recs, match)))
+            return behs, out, g, len(behs), len(set(json.dumps(b[0]["arg"].get("text")) + b[-1]["a"] for b in behs if nontrivial(b)))
+        g = vlib.tlc_to_file("Gen_LayoutTree", cfg["gen"], dump, workers=6, timeout=1500, extra_env={"JAVA_TOOL_OPTIONS": "-Xss512m"})
+        if g.error:
+            raise vlib.MachineryError("X20 case export failed: %s" % g.error)
+        return None, None, g, 0, 0          # replayed from the dump below (process pool: from the main thread)
 
     def job_seeded():
         behs2, rres = render_docs(docs, "Trace_LayoutTree")
-        recs2, _ = vlib.run_driver(exe, vlib.to_script(behs2), env=DRV_ENV, timeout=600)
-        return behs2, recs2, rres
+        script = vlib.to_script(behs2)
+        recs2, _ = vlib.run_driver(exe, script, env=DRV_ENV, timeout=600)
+        recs2c, _ = vlib.run_driver(exe_c, script, env=DRV_ENV, timeout=600)
+        return behs2, recs2, recs2c, rres
 
     with concurrent.futures.ThreadPoolExecutor(max_workers=3) as ex:
         fm, fg, fs = ex.submit(job_model), ex.submit(job_gen), ex.submit(job_seeded)
-        behs, recs, gen = fg.result()
-        behs2, recs2, rres = fs.result()
+        behs, gout, gen, nbeh, nnt = fg.result()
+        behs2, recs2, recs2c, rres = fs.result()
         mc = fm.result()
-    ck.add_tlc(mc, "x20 exhaustive " + cfg["mc"])
+    if tier != "quick":
+        gout, nt, behs = [], set(), []
+        for drv, pfx in ((exe, ""), (exe_c, PFX_C)):
+            tot = vlib.replay_file(dump, drv, match=match, nontrivial=nt_recs, chunk=8000, procs=max(2, vlib.NCPU // 2))
+            mms, bl = [], []
+            for d in tot["details"]:
+                bl.append(d["behaviour"])
+                mms.append({"b": len(bl) - 1, "i": d["step"], "step": d["st"], "rec": d["record"], "why": d["why"]})
+            gout.append((pfx, mms, bl, tot["mismatches"]))
+            nbeh, nt = tot["n"], nt | tot["nontrivial"]
+        nnt = len(nt)
+        os.unlink(dump)
+    if mc is not None:
+        ck.add_tlc(mc, "x20 exhaustive " + cfg["mc"])
     ck.cov["transitions"] += gen.generated + rres.generated
-    per_sig = {}
-    mms = vlib.compare(behs, recs, match)
-    report(ck, behs, mms, "X20 A(replay)", per_sig)
+    nmm = 0
+    for ent in gout:
+        if tier == "quick":
+            pfx, mms = ent
+            report(ck, behs, mms, "X20 A(replay)", per_sig, pfx)
+            nmm += len(mms)
+        else:
+            pfx, mms, bl, cnt = ent
+            report(ck, bl, mms, "X20 A(replay)", per_sig, pfx)
+            nmm += cnt
     if len(behs2) != len(docs):
         raise vlib.MachineryError("X20: rendered %d of %d seeded descriptions" % (len(behs2), len(docs)))
     mms2 = vlib.compare(behs2, recs2, match)
     report(ck, behs2, mms2, "X20 seeded description", per_sig)
+    mms2c = vlib.compare(behs2, recs2c, match)
+    report(ck, behs2, mms2c, "X20 seeded description", per_sig, PFX_C)
 
     # pass 2: TLC itself accepts or rejects the recorded loads of the seeded descriptions
     bad = set(mm["b"] for mm in mms2)
@@ -370,39 +428,48 @@ def run_part(ck, tier):
                 ev = events[matched] if matched < len(events) else None
                 ck.violation("x20:trace:rejected", {"binding": "X20 B(trace validation)", "x20": True, "matched_prefix": matched,
                                                     "rejected_event": ev})
+            else:
+                matched = matched2
         validated = matched
-    nt = set(json.dumps(b[0]["arg"].get("text")) + json.dumps([s["a"] + str(s["arg"].get("mode", "")) for s in b])
-             for b in behs + behs2 if nontrivial(b))
-    ck.cov["evaluations"] += len(behs) + len(behs2)
-    ck.cov["distinct_nontrivial"] += len(nt)
+    nt2 = set(json.dumps(b[0]["arg"].get("text")) for b in behs2 if nontrivial(b))
+    ck.cov["evaluations"] += nbeh + len(behs2)
+    ck.cov["distinct_nontrivial"] += nnt + len(nt2)
     ck.cov["traces_validated_against_impl"] += validated
-    ck.notes["x20_replayed_descriptions"] = len(behs)
+    ck.notes["x20_replayed_descriptions"] = nbeh
     ck.notes["x20_seeded_descriptions"] = len(behs2)
+    ck.notes["x20_seeded_objects"] = sum(len(list(all_items((b[0].get("exp") or {}).get("items")))) for b in behs2)
     ck.notes["x20_seeded_validated_by_tlc"] = validated
-    ck.notes["x20_replay_mismatches"] = len(mms) + len(mms2)
+    ck.notes["x20_replay_mismatches"] = nmm + len(mms2) + len(mms2c)
     ck.notes["x20_mismatch_signatures"] = per_sig
     ck.notes["x20_rule"] = ("X20 A: one case per transition of the TLC state graph of LayoutTree under the skeleton view; each is a complete "
                             "description text loaded through mpt::layout (open/load) -- or mpt_parse_node + mpt_object_set_nodes for "
-                            "'cload' -- with ALL properties of ALL items, members and bound axes/worlds compared; X20 B: seeded longer "
+                            "'cload' -- optionally followed by a copy of every item / a second read, with ALL properties of ALL items, "
+                            "members and bound axes/worlds compared, in both link orders of the metatype creators; X20 B: seeded longer "
                             "descriptions rendered and judged by TLC.  Non-trivial = more than one object, a binding, or a report.")
-    if behs:
+    if tier == "quick" and behs:
         mid = behs[len(behs) // 2]
         ck.cov["samples"] = list(ck.cov.get("samples") or []) + [
             {"x20_text": unrle(mid[0]["arg"].get("text"), 60), "steps": [s["a"] for s in mid],
              "expected_items": [(it.get("kind"), unrle(it.get("name"))) for it in all_items((mid[0].get("exp") or {}).get("items"))]}]
+    elif behs2:
+        ck.cov["samples"] = list(ck.cov.get("samples") or []) + [
+            {"x20_text": unrle(behs2[0][0]["arg"].get("text"), 60), "steps": [s["a"] for s in behs2[0]]}]
     ck.assumptions.append("X20: drv/layouttree.cpp projects the loaded layout without judgement; the description language is the one "
                           "LayoutTree's actions write (docs/X20_tree.md)")
 
 
-def replay(det):
+def replay(det, path="-"):
     """replay of a violation file written by this part (called from checks/c20.py:replay)"""
     beh = det.get("behaviour")
     if not beh:
         print(json.dumps(det, indent=1)[:4000])
         return 2
-    exe = build()
+    if det.get("rejected_event"):
+        print(json.dumps(det, indent=1)[:4000])
+        return 2
+    exe = build_c() if det.get("corder") else build()
     recs, _ = vlib.run_driver(exe, vlib.to_script([beh]))
     mms = vlib.compare([beh], recs, match)
     for mm in mms:
-        print("VIOLATION property=C20 (%s: %s)" % (signature(mm, beh), mm["why"]))
+        print("VIOLATION property=C20 replay=%s  (%s%s: %s)" % (path, PFX_C if det.get("corder") else "", signature(mm, beh), mm["why"]))
     return 1 if mms else 0
